@@ -138,7 +138,7 @@ def trace_bounded_instance():
         lab = rng.randint(0, K, size=(F, N))
         noise = 0.7
         if which == 'cwmm' and (inp['seed'] // 2) % 2 == 0:
-            noise = float(rng.uniform(0.06, 0.12))      # concentrated classes: Watson concentrations between 100 and the table end
+            noise = float(rng.uniform(0.13, 0.2))       # concentrated classes: Watson concentrations of 50 .. 300, below the table end
         y = np.take_along_axis(cent, lab[..., None], axis=1) + noise * (rng.normal(size=(F, N, D)) + (1j * rng.normal(size=(F, N, D)) if cplx else 0))
         if cplx and inp['seed'] % 2:
             # the directional models see directions only: frames of any level (quiet frames next to loud ones) give the same trace
